@@ -61,6 +61,20 @@ def construct_volume_t4(mcnp_parser, lattice_params, cell_cache_path,
                 t4_tr_surfs = convert_mcnp_surface(tr_surf_id, tr_surfs)
                 dic_surface_t4[tr_surf_id] = t4_tr_surfs
 
+    # facet numbers are checked in all the cells, including those that will
+    # not be converted (zero importance, universes that fill nothing)
+    for key, value in mcnp_dict.items():
+        for surf in extract_surfaces_list(value.geometry):
+            surf_id = abs(int(surf))
+            if surf.sub is None or surf_id not in dic_surface_mcnp:
+                continue
+            n_facets = len(dic_surface_mcnp[surf_id])
+            if surf.sub < 1 or surf.sub > n_facets:
+                msg = (f'found facet {surf.sub} of surface {surf_id} in the '
+                       f'definition of cell {key}, but surface {surf_id} '
+                       f'has facets 1 to {n_facets}')
+                raise CellConversionError(msg)
+
     free_key = max(int(k) for k in mcnp_dict) + 1
     free_surf_key = max(max(int(k) for k in dic_surface_mcnp) + 1,
                         max(int(k) for k in dic_surface_t4) + 1)
